@@ -10,3 +10,4 @@ spec(lean="node_branch", module="AlgoNodeBranch", file=_TREE, cls="Tree.Node", f
            "n": "Node@self.attach"},
      ret="List Int", fuel=True, tree_cols=_ATT,
      doc="`swcgeom/core/tree.py::Tree.Node.branch` (node handles are row indices; the returned `Tree.Branch` is the list of its node ids)")
+MODULE_MODEL_IMPORTS["AlgoNodeBranch"] = ["PyMore"]      # Py.setdiff1dUnique
